@@ -66,6 +66,8 @@ class SQLLiteQueryBuilder(QueryBuilder):
             ),
         )
         if self._update_table:
+            # the clauses of the statement start afresh (see QueryBuilder.get_sql)
+            ctx = ctx.copy(with_alias=False, subquery=True)
             if self._with:
                 querystring = self._with_sql(ctx)
             else:
